@@ -268,6 +268,22 @@ func c17Doc(c *fw.Ctx) (corpusDoc, string) {
 			d.Data = []byte("[Script Info]\nTitle: t\n\n[Events]\nFormat: Start, End, Text\nDialogue: 0:00:01.00,0:00:02.00,first\nDialogue: 0:00:03.00,0:00:04.00," + long + "\nDialogue: 0:00:05.00,0:00:06.00,last\n")
 		}
 		return d, "longline"
+	case variant == 5:
+		// something follows the document proper: a tool signature or a second document after the root element of a
+		// TTML file, an incomplete TTI block after an STL file, an incomplete packet after a transport stream
+		d := genDoc(c.R, format, false)
+		switch format {
+		case "ttml":
+			d.Data = append(d.Data, fw.Pick(c.R, []string{"\n<!-- made with a tool -->\n", "\ntrailing text", "<tt/>", "\n\n" + string(d.Data), "\x00\x00", "\n<", strings.Repeat(" ", 5000) + "x"})...)
+		default:
+			extra := make([]byte, c.R.Range(1, 127))
+			for i := range extra {
+				extra[i] = byte(c.R.Intn(256))
+			}
+			d.Data = append(d.Data, extra...)
+		}
+		d.Origin = "generated, with a trailer"
+		return d, "trailer"
 	case variant == 7:
 		return bigDoc(c.R, format), "big"
 	case variant == 6:
